@@ -3,7 +3,7 @@ import itertools
 
 import numpy as np
 
-from vt.core import alpha, bind, pool
+from vt.core import alpha, bind, graph, pool
 from vt.ref import pwl as rp
 
 ID = "C05"
@@ -138,6 +138,10 @@ def pwl_case(item, ctx=None):
   form = _LAST_FORM[0]
   if form:
     return form
+  gm = graph.graph_msg(layer, np.asarray(X, dtype=np.float32) if ismiss is None else
+                       [np.asarray(X, dtype=np.float32), np.asarray(ismiss, dtype=np.float32)])
+  if gm:
+    return gm
   # reference
   ref = np.zeros((X.shape[0], units))
   for u in range(units):
@@ -204,6 +208,10 @@ def learned_case(item, ctx=None):
     L = np.stack([np.roll(words[wi], u) for u in range(units)], axis=0)
     layer.interpolation_logits.assign(L.astype(np.float32))
     out = _call(layer, xs[:, None])
+    if wi in (0, words.shape[0] - 1):
+      gm = graph.graph_msg(layer, xs[:, None].astype(np.float32))
+      if gm:
+        msgs.append("logits %s: %s" % (L.tolist(), gm))
     kin = np.asarray(layer.keypoints_inputs(), dtype=np.float64)  # (n, units)
     if not np.all(np.isfinite(out)):
       msgs.append("logits %s: non-finite output %s at inputs %s" %
@@ -276,7 +284,7 @@ def cat_case(item, ctx=None):
     layer.kernel.assign(K.astype(np.float32))
     x = tf.constant(X.astype(item["dtype"]))
     out = layer(x)
-    form = _form_msg(out, item["split"], units, X.shape[0])
+    form = _form_msg(out, item["split"], units, X.shape[0]) or graph.graph_msg(layer, x)
     if form:
       msgs.append(form)
       break
